@@ -45,6 +45,9 @@ def main():
         if rc != 0:
             res["demo_clean_tail"] = out[-800:]
         rc, out = sh(f"git apply {src}/patch.diff", cwd=wt)
+        if rc:
+            rc, out = sh(f"git apply --3way {src}/patch.diff && git reset -q", cwd=wt)
+            res["applied_3way"] = rc == 0
         res["patch_applies"] = rc == 0
         if rc:
             res["apply_err"] = out[-500:]
